@@ -48,11 +48,19 @@ Definition order_id : order_fn := fun _ b => b.
 Fixpoint insert_key (key : nat -> Z) (x : nat) (l : list nat) : list nat :=
   match l with
   | [] => [x]
-  | y :: r => if key x <? key y then x :: y :: r else y :: insert_key key x r
+  | y :: r => if key x <=? key y then x :: y :: r else y :: insert_key key x r
   end.
-(* stable: elements are inserted from the right end, equal keys keep their order *)
+(* stable: elements are inserted from the right end in front of the first entry whose key is
+   not smaller, so equal keys keep their order *)
 Definition sort_key (key : nat -> Z) (l : list nat) : list nat := fold_right (insert_key key) [] l.
 Definition order_by_key (keys : list Z) : order_fn := fun _ b => sort_key (fun e => nth e keys 0) b.
+
+(* replay oracle: the edge chosen by an observed run is scanned first.  With it the model is the
+   nondeterministic routine "each iteration picks SOME two-sided edge joining an inside plaquette
+   to an outside one"; the correspondence check feeds the implementation's own tree and must get
+   it back, whatever order the implementation scans its candidates in *)
+Definition order_front (choice : list nat) : order_fn :=
+  fun n b => match nth_error choice n with Some e => e :: b | None => b end.
 
 (* ---------- one scan of the candidates  (graph_utils.py:95-125) ----------
    returns the first candidate edge that has a plaquette on both sides, one of them inside
@@ -138,8 +146,8 @@ Definition n_to_ujk_flipped (n : Z) (u : list Z) (tree : list nat) : option (lis
 
 (* ---------- spanning-tree checker run on the implementation's output ----------
    tree: list of edges; F plaquettes 0..F-1.  Grows the set of plaquettes reachable from
-   plaquette 0 through two-sided tree edges, F rounds; accepts iff the tree has F-1 edges,
-   all two-sided with sides < F, and every plaquette is reached. *)
+   plaquette 0 through two-sided tree edges, F rounds; accepts iff the tree has F-1 distinct
+   edges, all two-sided with sides < F, and every plaquette is reached. *)
 Definition grow_once (ep : list ep_row) (tree : list nat) (reach : list nat) : list nat :=
   fold_left (fun r e =>
     match two_sided ep e with
@@ -161,18 +169,23 @@ Definition sides_ok (ep : list ep_row) (F : nat) (e : nat) : bool :=
   end.
 Definition is_spanning_tree (ep : list ep_row) (F : nat) (tree : list nat) : bool :=
   (S (length tree) =? F)%nat
+  && nodupb tree
   && forallb (sides_ok ep F) tree
   && forallb (fun q => memb q (grow ep tree F [0%nat])) (seq 0 F).
 
 (* ep table and plaquette edge lists describe the same incidence:
-   plaquette q is a side of edge e  <->  e is in q's edge list  (C02's edge_sides) *)
+   plaquette q is a side of edge e  <->  e is in q's edge list  (C02's edge_sides),
+   and every table entry is a plaquette index *)
 Definition is_side (ep : list ep_row) (e q : nat) : bool :=
   match ep_at ep e with
   | (a, b) => (match a with Some x => (x =? q)%nat | None => false end)
               || (match b with Some x => (x =? q)%nat | None => false end)
   end.
+Definition onat_lt (F : nat) (a : option nat) : bool :=
+  match a with Some x => (x <? F)%nat | None => true end.
 Definition ep_agrees (ep : list ep_row) (pes : list (list nat)) : bool :=
-  forallb (fun q =>
+  forallb (fun row : ep_row => onat_lt (length pes) (fst row) && onat_lt (length pes) (snd row)) ep
+  && forallb (fun q =>
     forallb (fun e => is_side ep e q) (nth q pes [])
     && forallb (fun e => negb (is_side ep e q) || memb e (nth q pes [])) (seq 0 (length ep)))
     (seq 0 (length pes)).
